@@ -86,10 +86,14 @@ def run_server_rows(ctx, rows):
         cwd = os.path.dirname(r["toml"])
         e = dict(env)
         e["RUST_LOG"] = "error"
-        cmd = "env %s timeout -s KILL 8 %s --config %s" % (" ".join("-u " + k for k in env), SERVER_BIN, r["toml"])
-        rc, out = vlib.sh(cmd, cwd=cwd, timeout=30)
+        cmd = "env %s timeout -s KILL 20 %s --config %s" % (" ".join("-u " + k for k in env), SERVER_BIN, r["toml"])
+        rc, out = vlib.sh(cmd, cwd=cwd, timeout=60)
         res["ran"] += 1
-        if rc not in (0, 124, 137) and not os.path.exists(r["data_dir"]):
+        # refused = nothing was opened (no data directory) and the process either exited with an error
+        # status or had already printed its fatal configuration error when a loaded machine made the
+        # watchdog kill it during exit
+        refused_status = rc not in (0, 124, 137) or "Error:" in out
+        if refused_status and not os.path.exists(r["data_dir"]):
             res["refused"] += 1
         else:
             res["started"].append({"case": r["case"], "rc": rc, "toml": open(r["toml"]).read(), "output_tail": out[-600:],
